@@ -1,13 +1,48 @@
 import ShuttleProofs.Lemmas.ReplayData
+import ShuttleProofs.Lemmas.ReplayNondet
+import ShuttleProofs.Lemmas.ReplayClock
 import ShuttleProofs.Lemmas.ReplayExamples
 import ShuttleProofs.C16
 
 /-!
 # C01 — an execution is determined by its recorded schedule; replay reproduces it
+
+Models: `ShuttleModel/Kernel.lean` (runtime), `ShuttleModel/Sched/Replay.lean` (`ReplayScheduler`),
+`ShuttleModel/Sched/NondetCheck.lean` (`UncontrolledNondeterminismCheckScheduler`), `Serialize.lean`, `Rng.lean`,
+`Runner.lean`.  Everything is for ALL programs `P`, ALL schedulers `S` (any state type), ALL `MaxSteps`, seeds,
+scheduler states and ALL amounts of model fuel.
+
+Proof architecture (`ShuttleProofs/Lemmas/Replay*.lean`):
+* `ReplaySim`   — `Follows S S' R` / `execute_follows`: a scheduler `S'` that, related by `R` to the original
+                  scheduler state and to the events the original run still has to log, answers every consultation
+                  and draw like the original, drives the very same execution (induction over `runLoop` fuel with
+                  an inner induction over `runSegment`, all ~30 kernel requests).
+* `ReplaySched` — the `ReplayScheduler` is such a follower of the log whose projection (`record_exact`) it replays.
+* `ReplayInv`   — scheduler-state/log invariants (`execute_logInv`), schedulers that never cause a scheduler panic.
+* `ReplayData`  — `DataFaithful` for round-robin / random / DFS.
+* `ReplaySeed`  — the seed stored in the kernel is never read (`execute_seed`).
+* `ReplayNondet`— the nondeterminism checker: recording = inner run + projection of the log; checking = follower.
+* `ReplayClock` — `next_task` with a target clock.
+
+Theorems: `replay_faithful(_core)`, `replay_exhausts_schedule`, `replay_from_string(_ws,_ws_insert)`, `recorded_wf`,
+`replay_entry_point`, `builtin_data_faithful(_exec)`, `nondet_check_never_rejects(_pair)`,
+`nondet_check_newExec_once_per_pair`, `target_clock_keeps_dependencies_partial`.
+
+Remarks on model vs Rust:
+* `shuttle::replay` builds its `Runner` with `Default::default()` config; the theorems replay with the SAME
+  `MaxSteps` as the original run (with a different bound the runs agree as long as neither bound is hit, see
+  `runLoop_stMS`).
+* "Determinism of the body" is built into the model: a `Program` is a deterministic function of what the kernel
+  returns.  Consequently the checker theorem says: for bodies whose only nondeterminism is scheduling and
+  `shuttle::rand`, none of the checker's panics is reachable.
+* `ReplayScheduler::next_u64` indexes `schedule.steps[self.steps]` without a bounds check (index panic when the
+  schedule is exhausted): modelled as the scheduler panic `msgIndex`.
+* the checker's recording execution and checking execution run with different schedule seeds (`seed` / dummy 0):
+  harmless, the seed stored in `CURRENT_SCHEDULE` is never read during an execution (`execute_seed`).
 -/
 
 namespace ShuttleProofs.C01
-open ShuttleModel ShuttleModel.Replay ShuttleProofs.Kernel ShuttleProofs.Replay
+open ShuttleModel ShuttleModel.Replay ShuttleModel.NondetCheck ShuttleProofs.Kernel ShuttleProofs.Replay
 
 variable {σ : Type}
 
@@ -351,6 +386,175 @@ example : (recordedOf 0 runR).wf := by
 example : (Replay.replay exR "9102090010510900" .none 50 50).map
     (fun res => (res.count, res.execs.map (fun e => (e.1, e.2.outcome)))) = some (some 1, [(0, .ok)]) := by
   decide +kernel
+
+end examples
+
+/-! ### the uncontrolled-nondeterminism checker
+
+What `UncontrolledNondeterminismCheckScheduler` compares (NondetCheck.lean): during the *recording* execution
+it stores, per `next_task`, the inner scheduler's choice, the runnable ids it was shown and `is_yielding`, and
+per `next_u64` the value; during the *checking* execution (seed 0, inner scheduler not consulted) it panics with
+"possible nondeterminism" if (a) a call arrives after the recording is exhausted, (b) a `next_task` call meets a
+recorded `Random` or vice versa, (c) the runnable ids differ, (d) `is_yielding` differs; and at the next
+`new_execution` if (e) the checking execution consumed fewer steps than recorded.  `current` is not compared.
+-/
+
+/-- **nondet_check_never_rejects**, one pair of executions, for EVERY program, EVERY inner scheduler `F` (any
+state type, no `DataFaithful` assumption — the checker replays the drawn values themselves) and every idle
+checker state (e.g. `new s`): if `F.new_execution` returns `seed`/`inner` and `F`'s execution `rF` does not end
+in a scheduler panic, then
+* `new_execution` of the checker does not panic, consults `F.new_execution` once and starts the recording;
+* the recording execution is `rF` (same log, outcome, kernel, user state) and ends with
+  `previous_schedule = recsOf rF.log`;
+* the next `new_execution` does NOT consult `F`, returns seed 0 and starts the checking execution;
+* the checking execution is `rF` again (up to the seed field of the kernel): none of the checker's panics fires,
+  and the checker is idle again afterwards — so the next `new_execution` does not raise (e) either. -/
+theorem nondet_check_never_rejects_pair (F : FullScheduler σ) (P : Program) (ms : MaxSteps) (fuel segFuel : Nat)
+    (ns : NondetState σ) (hidle : Idle ns) (seed : Nat) (inner : σ)
+    (hnew : F.newExec ns.scheduler = .some seed inner)
+    (hne : ∀ msg, (execute P F.sched ms seed inner fuel segFuel).outcome ≠ .schedPanic msg) :
+    (check F).newExec ns = .some seed (recStart inner) ∧
+    execute P (check F).sched ms seed (recStart inner) fuel segFuel =
+      reRes (execute P F.sched ms seed inner fuel segFuel)
+        (recEnd (execute P F.sched ms seed inner fuel segFuel).st.sch
+          (execute P F.sched ms seed inner fuel segFuel).st.log.toList) ∧
+    (check F).newExec (recEnd (execute P F.sched ms seed inner fuel segFuel).st.sch
+        (execute P F.sched ms seed inner fuel segFuel).st.log.toList) =
+      .some 0 (chkStart (execute P F.sched ms seed inner fuel segFuel).st.sch
+        (execute P F.sched ms seed inner fuel segFuel).st.log.toList) ∧
+    ∃ nsF, execute P (check F).sched ms 0
+        (chkStart (execute P F.sched ms seed inner fuel segFuel).st.sch
+          (execute P F.sched ms seed inner fuel segFuel).st.log.toList) fuel segFuel =
+        reRes (resSeed 0 (execute P F.sched ms seed inner fuel segFuel)) nsF ∧
+      Idle nsF ∧ nsF.scheduler = (execute P F.sched ms seed inner fuel segFuel).st.sch := by
+  refine ⟨?_, recording_exec F P ms seed inner fuel segFuel hne, rfl,
+    checking_exec F P ms seed inner fuel segFuel hne⟩
+  rw [newExec_idle F ns hidle, hnew]
+
+/-- **nondet_check_never_rejects**, whole runs: if the inner scheduler's own executions of `P` never end in a
+scheduler panic (`InnerOK`), then in `Runner::run` under the checker — any number of iterations, started from a
+fresh checker — no execution ends with a scheduler panic, in particular with none of the six "possible
+nondeterminism" panics of `next_task`/`next_u64`, and `new_execution` never raises the seventh ("ended earlier
+than expected"). -/
+theorem nondet_check_never_rejects (F : FullScheduler σ) (P : Program) (ms : MaxSteps) (fuel segFuel : Nat)
+    (hF : InnerOK F P ms fuel segFuel) (iters : Nat) (s : σ) :
+    RunOK (runner P (check F) ms fuel segFuel iters (NondetCheck.new s) []) :=
+  runner_check_ok hF iters _ [] (Or.inl (idle_new s)) (by simp)
+
+/-- `F.new_execution` is consulted once per pair: in an idle state the checker's `new_execution` is the inner
+one; right after a recording it is not consulted at all. -/
+theorem nondet_check_newExec_once_per_pair (F : FullScheduler σ) :
+    (∀ ns, Idle ns → (check F).newExec ns =
+      match F.newExec ns.scheduler with
+      | .none => .none
+      | .panic m => .panic m
+      | .some seed inner => .some seed (recStart inner)) ∧
+    (∀ s l, (check F).newExec (recEnd s l) = .some 0 (chkStart s l)) :=
+  ⟨newExec_idle F, newExec_recEnd F⟩
+
+/-- the round-robin scheduler satisfies `InnerOK` for every program -/
+theorem rr_innerOK (P : Program) (ms : MaxSteps) (fuel segFuel : Nat) : InnerOK rrScheduler P ms fuel segFuel where
+  noSchedPanic := fun seed s => execute_not_schedPanic rr_wellBehaved P ms seed s fuel segFuel
+  newExecMsg := by
+    intro s msg h
+    simp only [rrScheduler] at h
+    split at h <;> cases h
+
+section examples
+
+/-- the checker around round-robin on `exR`, 3 inner iterations: 6 executions, `Ok(6)`, every checking execution
+(odd positions, seed 0) has the log of the recording before it -/
+example : RunOK (runner exR (check rrScheduler) .none 50 50 10 (NondetCheck.new rr0) []) :=
+  nondet_check_never_rejects rrScheduler exR .none 50 50 (rr_innerOK exR .none 50 50) 10 rr0
+
+example :
+    (runner exR (check rrScheduler) .none 50 50 10 (NondetCheck.new rr0) []).count = some 6 ∧
+    (runner exR (check rrScheduler) .none 50 50 10 (NondetCheck.new rr0) []).execs.map (·.2.outcome) =
+      [.ok, .ok, .ok, .ok, .ok, .ok] ∧
+    ((runner exR (check rrScheduler) .none 50 50 10 (NondetCheck.new rr0) []).execs.map (·.2.st.log.toList))[1]? =
+      some runR.st.log.toList := by
+  decide +kernel
+
+/-- the pair theorem applies to the panicking and the deadlocking variant too (their failures are reproduced by the
+checking execution, not turned into "possible nondeterminism") -/
+example : (runner exRPanic (check rrScheduler) .none 50 50 10 (NondetCheck.new rr0) []).execs.map (·.2.outcome) =
+    [.panic 1 "even"] := by decide +kernel
+
+/-- the checker's panics are reachable in general: checking `exR` against the recording of a *different* body
+(`exRPanic`) is rejected — "set of runnable tasks is different" -/
+example :
+    (execute exR (check rrScheduler).sched .none 0 (chkStart rr1 runRPanic.st.log.toList) 50 50).outcome =
+      .schedPanic msgRunnable := by decide +kernel
+
+/-- … and a recording that is longer than the execution makes the next `new_execution` panic -/
+example : ∃ msg, (check rrScheduler).newExec
+    { scheduler := rr1, recording := false, previousSchedule := [.random 1], currentStep := 0 } = .panic msg :=
+  ⟨_, rfl⟩
+
+end examples
+
+/-! ### target clock (needed by C15)
+
+FULL statement wanted (not proved): in a whole replay *execution* with `target_clock = Some(c)`, every recorded
+step that happens-before the target event is executed and only steps concurrent with it are dropped, and the
+surviving steps see the same draws.  What is proved is the part about `next_task` alone: -/
+
+/-- **target_clock_keeps_dependencies_partial** (`ReplayScheduler::next_task` with `target_clock = Some(c)`):
+1. if the next recorded step is a task whose clock is `≤ c` (`Clock.le` = Rust's `PartialOrd` on `VectorClock`) and
+   it is among the runnable tasks, it is returned at once: never skipped, cursor + 1, data source and
+   `steps_skipped` untouched;
+2. if its clock is not `≤ c`, that step AND the block of `Random` steps following it are consumed — cursor
+   `+ 1 + n`, the data source advanced by exactly `n` draws, `steps_skipped + 1 + n` — and the loop continues from
+   there;
+3. whatever `next_task` finally returns is a runnable task whose clock is `≤ c`;
+4. the model's loop fuel never runs out. -/
+theorem target_clock_keeps_dependencies_partial (s : ReplayState) (views : List TaskView) (cur : Option Nat)
+    (y : Bool) (c : Clock) (htarget : s.targetClock = some c) :
+    (∀ t task, s.schedule.steps[s.steps]? = some (.task t) → views.find? (fun v => v.id == t) = some task →
+      task.clock.le c = true →
+      Replay.nextTask s views cur y = (.choose (some t), { s with steps := s.steps + 1 })) ∧
+    (∀ fuel t task, s.schedule.steps[s.steps]? = some (.task t) → views.find? (fun v => v.id == t) = some task →
+      task.clock.le c = false →
+      nextTaskLoop (fuel + 1) s views =
+        nextTaskLoop fuel
+          { s with steps := s.steps + 1 + leadingRandoms (s.schedule.steps.drop (s.steps + 1)),
+                   data := advanceData s.data (leadingRandoms (s.schedule.steps.drop (s.steps + 1))),
+                   stepsSkipped := s.stepsSkipped + (1 + leadingRandoms (s.schedule.steps.drop (s.steps + 1))) }
+          views) ∧
+    (∀ t s', Replay.nextTask s views cur y = (.choose (some t), s') →
+      ∃ task, views.find? (fun v => v.id == t) = some task ∧ task.clock.le c = true) ∧
+    (s.steps ≤ s.schedule.steps.length → (Replay.nextTask s views cur y).1 ≠ .panic msgFuel) :=
+  ⟨fun t task h1 h2 h3 => nextTask_keeps_dependency s views cur y c t task htarget h1 h2 h3,
+   fun fuel t task h1 h2 h3 => nextTaskLoop_skips_concurrent fuel s views c t task htarget h1 h2 h3,
+   fun t s' h => nextTask_choice_le s views cur y c t s' htarget h,
+   fun h => nextTask_fuel s views cur y h⟩
+
+section examples
+
+/-- a replay state with target clock `[1, 0]` about to replay `task 1, random, random, task 0` -/
+def rsClock : ReplayState :=
+  { schedule := ⟨0, [.task 1, .random, .random, .task 0]⟩, data := seededSource 0,
+    targetClock := some (Clock.ofList [1, 0]), started := true }
+
+def viewsClock : List TaskView :=
+  [{ id := 0, clock := Clock.ofList [1, 0], parent := none }, { id := 1, clock := Clock.ofList [1, 1], parent := some 0 }]
+
+/-- task 1 (clock `[1,1]`, concurrent with the target `[1,0]`) and its two draws are skipped — cursor 4, three
+steps skipped, the data source is two draws further — and task 0 (clock `[1,0] ≤ [1,0]`) is returned -/
+example :
+    (match (Replay.nextTask rsClock viewsClock none false).1 with
+      | .choose ch => some ch
+      | .panic _ => none) = some (some 0) ∧
+    (Replay.nextTask rsClock viewsClock none false).2.steps = 4 ∧
+    (Replay.nextTask rsClock viewsClock none false).2.stepsSkipped = 3 ∧
+    (Replay.nextTask rsClock viewsClock none false).2.data = advanceData (seededSource 0) 2 := by
+  decide +kernel
+
+/-- clause 1 on a concrete state: with target `[1,1]` nothing is skipped -/
+example : Replay.nextTask { rsClock with targetClock := some (Clock.ofList [1, 1]) } viewsClock none false =
+    (.choose (some 1), { rsClock with targetClock := some (Clock.ofList [1, 1]), steps := 1 }) :=
+  (target_clock_keeps_dependencies_partial _ viewsClock none false (Clock.ofList [1, 1]) rfl).1 1
+    { id := 1, clock := Clock.ofList [1, 1], parent := some 0 } rfl rfl (by decide)
 
 end examples
 
